@@ -1,5 +1,5 @@
 (* C03 — Association state machine admits exactly the legal request/response sequences. *)
-From Dlms Require Import Base AssocModel AssocProofs.
+From Dlms Require Import Base AssocModel AssocSpec AssocProofs.
 
 (* over the property's alphabet (6 request kinds sent, 15 response kinds received), for every state,
    every attribute combination the code branches on, normal and pre-established associations:
